@@ -174,7 +174,7 @@ pub fn minimise(engine: &dyn Engine, failing: &Case, violation: &Violation, sb: 
                 let mut c = cand.clone();
                 c.sched = s;
                 tried += 1;
-                let o = engine.execute(&c, sb);
+                let o = run_case(engine, &c, sb);
                 if let Some(v) = o.violation {
                     if v.clause == best_v.clause {
                         hit = Some((c, v));
@@ -196,7 +196,7 @@ pub fn minimise(engine: &dyn Engine, failing: &Case, violation: &Violation, sb: 
     }
     // 2. schedule: fewest context switches among a handful of simple schedulers
     let mut best_cs = {
-        let o = engine.execute(&best, sb);
+        let o = run_case(engine, &best, sb);
         o.log.context_switches
     };
     let mut variants = vec![Sched::fifo()];
@@ -218,7 +218,7 @@ pub fn minimise(engine: &dyn Engine, failing: &Case, violation: &Violation, sb: 
         let mut c = best.clone();
         c.sched = s;
         tried += 1;
-        let o = engine.execute(&c, sb);
+        let o = run_case(engine, &c, sb);
         if let Some(v) = &o.violation {
             if v.clause == best_v.clause && o.log.context_switches < best_cs {
                 best_cs = o.log.context_switches;
@@ -229,7 +229,7 @@ pub fn minimise(engine: &dyn Engine, failing: &Case, violation: &Violation, sb: 
         }
     }
     // 3. freeze the schedule as an explicit decision list
-    let o = engine.execute(&best, sb);
+    let o = run_case(engine, &best, sb);
     if let Some(v) = &o.violation {
         if v.clause == best_v.clause {
             let mut frozen = best.clone();
@@ -244,7 +244,7 @@ pub fn minimise(engine: &dyn Engine, failing: &Case, violation: &Violation, sb: 
                 b: best.sched.b,
                 decisions_rle: rle_encode(&o.log.decisions),
             };
-            let o2 = engine.execute(&frozen, sb);
+            let o2 = run_case(engine, &frozen, sb);
             if let Some(v2) = o2.violation {
                 if v2.clause == best_v.clause && !o2.log.diverged {
                     best = frozen;
